@@ -721,13 +721,16 @@ class TLSConnection(TLSRecordLayer):
             cipherSuites += CipherSuite.getSrpAllSuites(settings)
         elif certParams:
             cipherSuites += CipherSuite.getTLS13Suites(settings)
-            cipherSuites += CipherSuite.getEcdsaSuites(settings)
-            cipherSuites += CipherSuite.getEcdheCertSuites(settings)
+            # without a curve enabled we could not accept any ECDHE share
+            if settings.eccCurves:
+                cipherSuites += CipherSuite.getEcdsaSuites(settings)
+                cipherSuites += CipherSuite.getEcdheCertSuites(settings)
             cipherSuites += CipherSuite.getDheCertSuites(settings)
             cipherSuites += CipherSuite.getCertSuites(settings)
             cipherSuites += CipherSuite.getDheDsaSuites(settings)
         elif anonParams:
-            cipherSuites += CipherSuite.getEcdhAnonSuites(settings)
+            if settings.eccCurves:
+                cipherSuites += CipherSuite.getEcdhAnonSuites(settings)
             cipherSuites += CipherSuite.getAnonSuites(settings)
         else:
             assert False
